@@ -131,7 +131,7 @@ def run(ctx):
     n_docs = 40 if tier == "quick" else 500
 
     for i in range(n_docs):
-        doc, ev = A.gen_emit_doc(rng)
+        doc, ev = A.gen_emit_doc(rng, unsupported=True)
         text = A.render_amp(doc)
         for cls, py in ((GooFitChain, False), (GooFitPyChain, True)):
             case = {"kind": "emit", "text": text, "language": "python" if py else "c++"}
